@@ -55,14 +55,22 @@ def r11(F):
     preds = variants.predicates(F, VAL)
     for k, p in CONV.items():
         fn = F.fn(p + "convert_value")
-        oks = {b for b, j, pl, rv, m in fn.assigns() if pl["l"] == 0 and not pl["p"] and rv["k"] == "agg" and rv.get("variant") == "Ok"}
-        errs = {b for b, j, pl, rv, m in fn.assigns() if pl["l"] == 0 and not pl["p"] and rv["k"] == "agg" and rv.get("variant") == "Err"}
+        oks = util.result_blocks(fn, "Ok")
+        errs = util.result_blocks(fn, "Err")
         # `?` forwards an Err through from_residual
         errs |= {b for b, t in fn.calls() if callee(t).endswith("::from_residual")}
+        # an arm may also hand on the Result of a call (a helper's, or a combinator chain ending in ok_or_else / map_err):
+        # that can be either
+        feed = util.feeders_of(fn, 0)
+        either = {b for b, t in fn.calls() if t["dest"]["l"] in feed and not t["dest"]["p"] and not callee(t).endswith("::from_residual")}
         for v in F.variants(VAL):
             reach = variants.reach_variant(F, fn, 0, VAL, v, preds)
             can_ok = bool(reach & oks)
             can_err = bool(reach & errs)
+            if reach & either and not (reach & (oks | errs)):
+                if v in MUST_ERR[k]:
+                    need(False, "%s::convert_value: the %s arm returns the result of a call; whether it can be Ok is not visible here" % (k, v))
+                can_ok = True
             if v in MUST_ERR[k]:
                 ok = can_err and not can_ok
                 r.inst("%s:%s" % (k, v), fn.where(), ok, "always an error" if ok else
